@@ -260,7 +260,10 @@ def _single_assigns(fn):
 def _filter_lists(fn, coll, var, key, best, keys_name=None):
     """names of lists built as [v for v in COLL if KEY(v) == best] (or through zip(COLL, KEYS) with the key list computed over the same collection)"""
     out = []
-    for name, st in _single_assigns(fn).items():
+    named = list(_single_assigns(fn).items())
+    # a helper may return the filtered list directly: `return [v for v in COLL if KEY(v) == best]`
+    named += [("<return>", x) for x in ast.walk(fn) if isinstance(x, ast.Return) and isinstance(x.value, ast.ListComp)]
+    for name, st in named:
         c = st.value
         if not (isinstance(c, ast.ListComp) and len(c.generators) == 1 and len(c.generators[0].ifs) == 1):
             continue
